@@ -80,6 +80,7 @@ class Harness:
         self.builtin = {k: ("builtin", k) for k in self.saved}
         self.model = dict(self.builtin)  # name -> spec
         self.history = []
+        self.held = []
         self.rereg = False
         self.hit = False
 
@@ -90,8 +91,51 @@ class Harness:
     def case(self):
         return {"history": copy.deepcopy(self.history)}
 
+    def check_held(self, op):
+        """A `Format` validator OBJECT (documented as directly usable) kept across registrations: what it does is
+        decided by the registry at the moment it is called."""
+        from statham.schema.elements.base import UNBOUND_PROPERTY
+
+        if not self.held:
+            return []
+        name, validator = self.held[op["index"] % len(self.held)]
+        value = op["value"]
+        with warnings.catch_warnings(record=True) as caught:
+            warnings.simplefilter("always")
+            try:
+                validator(copy.deepcopy(value), UNBOUND_PROPERTY)
+                got = "ok"
+            except Exception as exc:  # noqa: BLE001
+                got = "reject" if type(exc).__name__ == "ValidationError" else "crash:" + type(exc).__name__
+        warned = [w for w in caught if issubclass(w.category, RuntimeWarning)]
+        is_str = isinstance(value, str)
+        registered = name in self.model
+        fmt_ok = True
+        if is_str and registered:
+            self.hit = True
+            spec = self.model[name]
+            fmt_ok = bool(self.saved[name](value)) if spec[0] == "builtin" else bool(make_pred(spec)(value))
+        expected = "ok" if fmt_ok else "reject"
+        fails = []
+        if got != expected:
+            fails.append({"sub": "held-validator", "kind": ("checker-false-but-accepted" if got == "ok" else
+                                                             "checker-true-but-rejected" if got == "reject" else got)
+                          + "(held Format validator)", "name": name, "value": value, "registered": registered})
+        want_warning = is_str and not registered
+        if bool(warned) != want_warning:
+            fails.append({"sub": "held-validator", "kind": ("warning-missing" if want_warning else "unexpected-warning")
+                          + "(held Format validator)", "name": name, "value": value})
+        return fails
+
     def apply(self, op):
         self.history.append(copy.deepcopy(op))
+        if op["op"] == "hold":
+            from statham.schema.validation import Format
+
+            self.held.append((op["name"], Format(op["name"])))
+            return []
+        if op["op"] == "check_held":
+            return self.check_held(op)
         if op["op"] == "register":
             spec = tuple(op["pred"])
             if op["name"] in self.model:
@@ -171,6 +215,15 @@ class Machine(RuleBasedStateMachine):
                           st.sampled_from(["12345678-1234-5678-1234-567812345678", "1990-12-31T23:59:59Z", "a-"])))
     def check(self, kind, name, value):
         self._do({"op": "check", "kind": kind, "name": name, "value": value})
+
+    @rule(name=st.one_of(st.sampled_from(NAMES), st.sampled_from(NAMES), jv.small_text))
+    def hold(self, name):
+        self._do({"op": "hold", "name": name})
+
+    @rule(index=st.integers(0, 20), value=st.one_of(jv.strings, jv.strings, st.sampled_from(
+        ["12345678-1234-5678-1234-567812345678", "1990-12-31T23:59:59Z", "a-", 5, None])))
+    def check_held(self, index, value):
+        self._do({"op": "check_held", "index": index, "value": value})
 
     @rule(index=st.integers(0, 50))
     def recheck(self, index):
